@@ -53,6 +53,8 @@ func (e *OpEngine) RunInstance(c *Call) {
 			e.Begin()
 			sym.ActiveFacts = nil
 			args := c.Build(e)
+			e.curMethod = c.Fn.Name()
+			e.curExpanding = e.expanding(c.Fn.Name(), args)
 			if fc.Facts != nil {
 				sym.ActiveFacts = fc.Facts(e)
 			}
@@ -259,11 +261,18 @@ func (e *OpEngine) checkNode(n *Node, c *Call, caseName string) {
 		covered[r]++
 		targets[r] = tp
 	}
-	for r := range ops {
-		if covered[r] != 1 {
+	for r, o := range ops {
+		os, _ := e.readGctx(o)
+		need := os.tracked && !os.dirty
+		if covered[r] > 1 || (need && covered[r] != 1) {
 			e.find("S1c.edges", key, fmt.Sprintf("operand%d-edges=%d", r, covered[r]), pos,
-				fmt.Sprintf("operand %d has %d back edges, expected exactly 1 [instance %s]", r, covered[r], c.Label))
+				fmt.Sprintf("tracked operand %d has %d back edges, expected exactly 1 (an untracked operand may have none) [instance %s]", r, covered[r], c.Label))
 			return
+		}
+	}
+	for r := range ops {
+		if targets[r].C == nil {
+			targets[r] = ops[r]
 		}
 	}
 	// C07 clause 3 / S1e: an operand whose shape differs from what the kernel consumed must have been expanded
@@ -417,7 +426,7 @@ func (e *OpEngine) checkGradients(n *Node, c *Call, caseName, key, pos string, o
 			verdict, wit := e.numericCompare(got, want, dt)
 			switch verdict {
 			case 1:
-				e.Findings = append(e.Findings, Finding{Rule: "A2.vjp", Construct: ckey, What: valueSignature(got, want), Pos: cpos,
+				e.Findings = append(e.Findings, Finding{Method: e.curMethod, Expanding: e.curExpanding, Rule: "A2.vjp", Construct: ckey, What: valueSignature(got, want), Pos: cpos,
 					Detail:  fmt.Sprintf("backward rule computes %s but the vector-Jacobian product (%s) is %s [instance %s; path %s]", clip(got.String()), rule, clip(want.String()), label, e.M.PathString()),
 					Witness: wit})
 			default:
